@@ -10,6 +10,7 @@ import (
 	"testing"
 
 	"github.com/gobwas/ws"
+	"github.com/gobwas/ws/wsflate"
 	"github.com/gobwas/ws/wsutil"
 	"pgregory.net/rapid"
 
@@ -45,6 +46,16 @@ type scenario struct {
 	Chunks   []int
 	BufSize  int
 	Entry    string
+	// AttachExt attaches a receive extension (wsflate.MessageState) to the Reader although the
+	// state does not say "extended": reserved bits must still be refused by the header check.
+	AttachExt bool
+}
+
+func (s scenario) exts() []wsutil.RecvExtension {
+	if s.AttachExt && !s.Extended {
+		return []wsutil.RecvExtension{&wsflate.MessageState{}}
+	}
+	return nil
 }
 
 func (s scenario) state() ws.State {
@@ -64,7 +75,7 @@ func (s scenario) state() ws.State {
 func (s scenario) describe() interface{} {
 	return map[string]interface{}{
 		"entry": s.Entry, "side": s.Side.String(), "extended": s.Extended, "limit": s.Limit, "bad_index": s.Bad,
-		"broken": s.Broken.String(), "too_large": s.TooLarge, "chunks": s.Chunks, "bufsize": s.BufSize, "frames": ref.Describe(s.Frames),
+		"broken": s.Broken.String(), "too_large": s.TooLarge, "chunks": s.Chunks, "bufsize": s.BufSize, "frames": ref.Describe(s.Frames), "attach_ext": s.AttachExt,
 	}
 }
 
@@ -149,7 +160,7 @@ func runReader(s scenario) error {
 	os := openStart(valid)
 	evs := ref.Events(valid[:os])
 	var ictl [][]byte
-	rd := &wsutil.Reader{Source: src, State: s.state(), MaxFrameSize: s.Limit}
+	rd := &wsutil.Reader{Source: src, State: s.state(), MaxFrameSize: s.Limit, Extensions: s.exts()}
 	rd.OnIntermediate = func(h ws.Header, r io.Reader) error {
 		p, err := readUntil(r, s.BufSize, idle)
 		if err != io.EOF {
@@ -375,7 +386,7 @@ func runReadFiltered(s scenario) error {
 
 func runReaderDiscard(s scenario) error {
 	src := tx.NewSrc(ref.EncodeAll(s.Frames), s.Chunks)
-	rd := &wsutil.Reader{Source: src, State: s.state()}
+	rd := &wsutil.Reader{Source: src, State: s.state(), Extensions: s.exts()}
 	valid := s.Frames[:s.Bad]
 	os := openStart(valid)
 	for _, e := range ref.Events(valid[:os]) {
@@ -558,6 +569,7 @@ func TestRuleViolation(t *testing.T) {
 		}
 		s.Chunks = gen.Chunks(t, "chunks")
 		s.BufSize = rapid.SampledFrom([]int{0, 1, 3, 64}).Draw(t, "bufsize")
+		s.AttachExt = rapid.IntRange(0, 3).Draw(t, "attachExt") == 0
 		hx.Eval()
 		note(s)
 		if err := run(s); err != nil {
@@ -649,7 +661,7 @@ func TestSmallScopeExhaustive(t *testing.T) {
 										if ext && (entry == "ReadText" || entry == "ReadBinary") {
 											continue // these helpers hard-wire the plain side state
 										}
-										s := scenario{Frames: frames, Bad: len(prefix), Broken: broken, Side: side, Extended: ext, Entry: entry, BufSize: 2}
+										s := scenario{Frames: frames, Bad: len(prefix), Broken: broken, Side: side, Extended: ext, Entry: entry, BufSize: 2, AttachExt: rsv != 0 && !ext}
 										if (int(op)+len(seq))%2 == 0 {
 											s.Chunks = []int{1}
 										}
